@@ -6,11 +6,11 @@
    pipeline run on the raw facts the file carries (C07_decode_encode_is_rebuild) — the file layer
    is transparent, for any number of terms and records; and the reload keeps the whole TERM
    STRUCTURE (ids, names, flags, parents, children, ancestor caches: C07_reload_keeps_terms).
-   That the propagated annotation sets, the records and the information content also come back
-   equal follows informally from the C02 / C03 theorems (both sides are the propagation of the same
-   direct facts) and is decided per case by the correspondence run and spec_C07; that part is not
-   yet one theorem. *)
-From HpoV Require Import Gen.Consts Model.Base Model.Group Model.Onto Model.Binary Proofs.GroupP Proofs.BinaryP Proofs.CodecP Proofs.SectionP Proofs.RoundTripP Model.Script.
+   and the ANNOTATION SETS of every term (C07_reload_keeps_annotations, for acyclic sources whose
+   sets are the propagation of their records' direct facts).  That the record maps and the
+   information content also come back equal is decided per case by the correspondence run and
+   spec_C07; that part is not yet one theorem. *)
+From HpoV Require Import Gen.Consts Model.Base Model.Group Model.Onto Model.Binary Proofs.GroupP Proofs.BinaryP Proofs.CodecP Proofs.SectionP Proofs.RoundTripP Proofs.ClosureP Proofs.LinkP Proofs.AnnotP Model.Script.
 
 Theorem C07_u32_roundtrip : forall n rest, n < 4294967296 -> u32_at (to_be32 n ++ rest) 0 = Ok n.
 Proof. exact u32_at_to_be32. Qed.
@@ -94,6 +94,16 @@ Proof. exact reload_keeps_terms. Qed.
 Theorem C07_builder_ontologies_are_sources : forall icf s codes o, run_script icf s = Ok (codes, Ok o) -> src_ok o.
 Proof. exact run_script_src_ok. Qed.
 
+(* ... and the ANNOTATION SETS of every term: if in the source every term carries exactly the
+   annotations with a direct fact at the term or at one of its descendants (ann_ok: the C02 statement)
+   and the is_a graph is acyclic, then after the reload every term carries, for each of the three
+   kinds, exactly the same set — whatever permutation of the records the file holds *)
+Theorem C07_reload_keeps_annotations : forall icf order o o'', file_ok order o -> src_ok o ->
+  ranked (o_arena o) -> ann_ok o -> (forall l r, In r (order l) <-> In r l) ->
+  decode icf (encode_with order o) = Ok o'' ->
+  Forall2 (fun t t'' => forall k, t_annots k t'' = t_annots k t) (ar_terms (o_arena o)) (ar_terms (o_arena o'')).
+Proof. exact reload_keeps_annotations. Qed.
+
 Print Assumptions C07_u32_roundtrip.
 Print Assumptions C07_name_cut_bounds.
 Print Assumptions C07_name_cut_identity.
@@ -110,3 +120,4 @@ Print Assumptions C07_record_section.
 Print Assumptions C07_decode_encode_is_rebuild.
 Print Assumptions C07_reload_keeps_terms.
 Print Assumptions C07_builder_ontologies_are_sources.
+Print Assumptions C07_reload_keeps_annotations.
